@@ -44,6 +44,12 @@ TFile == /\ IsEvent("File")
                /\ Expect(Consistent([hwm |-> d.hwm, reach |-> d.pages, free |-> d.free, fl |-> d.flrun, hasfl |-> d.freelist # -1,
                                      badtype |-> 0, disorder |-> 0]), "accounting predicate fails on a file produced by commits (C07)")
                /\ \A i \in 1..Len(E.pinfo) : Expect(PageInfoOK(f, d, E.pinfo[i]), <<"Tx.Page differs from the page header / free list; page", E.pinfo[i]>>)
+               \* the command-line views: `bbolt pages` lists exactly the page starts, ascending, with the same facts; `bbolt info` the page size
+               /\ Expect(~E.cli \/ (E.cliInfo = E.ps), <<"bbolt info prints a wrong page size (or failed)", E.cliInfo>>)
+               /\ Expect(~E.cli \/ ({E.cliPages[i].id : i \in 1..Len(E.cliPages)} = PagesTableIds(d) /\ Len(E.cliPages) = Cardinality(PagesTableIds(d))
+                                    /\ \A i \in 1..(Len(E.cliPages) - 1) : E.cliPages[i].id < E.cliPages[i + 1].id),
+                         <<"bbolt pages does not list exactly the page starts in ascending order; expected ids", PagesTableIds(d)>>)
+               /\ \A i \in 1..Len(E.cliPages) : Expect(PagesRowOK(f, d, E.cliPages[i]), <<"bbolt pages row differs from the page header / free list", E.cliPages[i]>>)
 
 TMetas == /\ IsEvent("Metas")
           /\ LET f == [b |-> E.m0 \o E.m1, ps |-> 80]
@@ -98,6 +104,10 @@ TShape == /\ IsEvent("Shape")
           /\ \A i \in 1..Len(E.stats) :
                 LET want == BT!StatsOf(E.pages, E.buckets, E.ps, E.stats[i].id) IN
                 Expect(\A f \in DOMAIN want : E.stats[i][f] = want[f], <<"Bucket.Stats differs from the tree; specification says", want, "reported", E.stats[i]>>)
+          \* `bbolt stats` prints the aggregate over the top-level buckets
+          /\ LET L == [i \in 1..Len(E.stats) |-> BT!StatsOf(E.pages, E.buckets, E.ps, E.stats[i].id)]
+                 want == BT!AggStats(L) IN
+             Expect(~E.cli \/ \A f \in DOMAIN want : E.cliStats[f] = want[f], <<"bbolt stats differs from the aggregate of the trees; specification says", want, "printed", E.cliStats>>)
 
 EInit == l = 1
 ENext == TFile \/ TMetas \/ TGraph \/ TSurgery \/ TShape
